@@ -127,6 +127,33 @@ def directed(name, quick):
                                 P.add(c, PB.M(q))
                                 cs.append(c)
                             out.append(P.steps)
+    if name == 'qlreal':
+        # a handful of circuits that also go through the real OpenQL compiler: runs of equal pulses (x90 x90 ..), idle and
+        # Hadamard, the parity-check pattern, waits, a nested block -- what is scheduled must be what was listed
+        mw = lambda k, q: PB.leaf(k, [q], [[q, 'MICROWAVE']], ['global', 'MW'])
+        cz = lambda a_, b_: PB.leaf('CPhase', [a_, b_], [[a_, 'FLUX'], [a_, 'MICROWAVE'], [b_, 'FLUX'], [b_, 'MICROWAVE']], ['global', 'FL'])
+        runs = [['Rx90'] * 4, ['Ry90', 'Ry90'], ['Identity', 'Rx180'], ['Hadamard', 'Hadamard'], ['Rx180', 'Rx180'], ['Rxm90', 'Rx90'],
+                ['Rym90', 'Ry90', 'Ry180'], ['Rx90', 'Ry90', 'Rx90']]
+        for k, run in enumerate(runs):
+            for nest in (False, True):
+                P = PB.Prog()
+                c = P.new()
+                tgt = c
+                if nest:
+                    P.add(c, PB.leaf('Reset', [0], [[0, 'ALL']], ['global', 'RST']))
+                    tgt = P.new()
+                for kind in run:
+                    P.add(tgt, mw(kind, 0))
+                P.add(tgt, mw('Ry90', 1))
+                P.add(tgt, cz(1, 2))
+                P.add(tgt, mw('Rym90', 1))
+                if k % 2:
+                    P.add(tgt, PB.W(0, 8))
+                P.add(tgt, PB.M(1))
+                if nest:
+                    P.add_sub(c, tgt)
+                P._step(a='Obs', c=c, what='fullql')
+                out.append(P.steps)
     if name == 'unroll3':
         # three parallel operations of unequal length (every order of the lengths), optionally a fourth chained one, repeated
         import itertools
@@ -264,7 +291,7 @@ SOURCES = {
     'C03': ('hist', 'plothist', 'acq', 'acqdir', 'twinops', 'twinblocks', 'obsnest', 'sim'),
     'C08': ('kinds', 'export', 'sim', 'library'),
     'C18': ('drawkinds', 'drawhist', 'drawnest'),
-    'C15': ('kinds', 'export', 'qldir'),
+    'C15': ('kinds', 'export', 'qldir', 'qlreal'),
 }
 
 
@@ -378,7 +405,7 @@ M_Init == /\\ heap = DoNewCircuit(DoAddOp(DoNewCircuit(<<>>, "n1", NoLink, <<"fi
       reps=[('fixed', 2), ('fixed', 3)], acts=('NewCircuit', 'AddOp', 'AddSub', 'Apply'), linktypes=(), max_circs=2, max_objs=8,
       max_steps=6 if quick else 7, workers=8, min_emit=6, timeout=120, cap=1500 if quick else 20000,
       keep=lambda p: p[-1]['a'] == 'Apply' and any(s['a'] == 'AddSub' for s in p))
-    for dn in ('flatdir', 'copyapplied', 'qldir', 'acqdir', 'unroll3', 'twinops', 'twinblocks'):
+    for dn in ('flatdir', 'copyapplied', 'qldir', 'acqdir', 'unroll3', 'twinops', 'twinblocks', 'qlreal'):
         if dn in want:
             out.append({'name': dn, 'programs': directed(dn, quick), 'generated': 0, 'tlc_states': 0, 'tlc_generated': 0, 'mode': 'directed family (python)'})
             out[-1]['generated'] = len(out[-1]['programs'])
